@@ -29,7 +29,7 @@ type dlCase struct {
 	idpSub        string
 	param         *string
 	param2        *string // a second host parameter (only the first one counts)
-	paramIsToken  string // "", valid, expired, forged, wrong-issuer
+	paramIsToken  string  // "", valid, expired, forged, wrong-issuer
 	qsub          *string
 }
 
